@@ -297,15 +297,21 @@ def run_call(call):
     res_entries = state_of([(res, "ret", "ret")], into_mesh=False)
     sh = shared(res_entries, pre) + shared(res_entries, post)
     sh = sorted(set(sh))
-    # determinism
+    # determinism; and every call hands out its own result: the result of the first call is neither shared with nor
+    # changed by a second call on equal (deep-copied) inputs
+    fresh_each = True
     try:
-        res2 = call.fn(*spare, **call.kwargs)
         a = bytes_by_path(state_of([(res, "ret", "ret")], into_mesh=False))
+        res2 = call.fn(*spare, **call.kwargs)
+        a_after = bytes_by_path(state_of([(res, "ret", "ret")], into_mesh=False))
         b = bytes_by_path(state_of([(res2, "ret", "ret")], into_mesh=False))
         det = set(a) == set(b) and all(same_payload(a[k][1], b[k][1]) for k in a) and scalar_equal(res, res2)
+        unchanged = set(a) == set(a_after) and all(same_payload(a[k][1], a_after[k][1]) for k in a)
+        res2_entries = state_of([(res2, "ret2", "ret2")], into_mesh=False)
+        fresh_each = unchanged and not shared(res_entries, res2_entries)
     except Exception as ex:
         det = False
-    return {"error": None, "result": res, "modified": modified, "shares": sh, "deterministic": det}
+    return {"error": None, "result": res, "modified": modified, "shares": sh, "deterministic": det, "fresh_each_call": fresh_each}
 
 
 def same_payload(a, b):
@@ -455,6 +461,8 @@ def c15_on_mesh(S, rng, mc):
             S.check(not mods, f"C15:modifies-input:{call.name}", f"{call.desc} changed an input", inp,
                     [f"{p} ({lab}, {how})" for lab, p, how in mods][:6], "inputs unchanged")
             S.check(out["deterministic"], f"C15:not-deterministic:{call.name}", f"two calls of {call.desc} with equal inputs differ", inp, None, "bit-identical")
+            S.check(out.get("fresh_each_call", True), f"C15:result-shared-between-calls:{call.name}",
+                    f"the result of {call.desc} shares storage with, or is changed by, a second call on equal inputs", inp, None, "independent results")
             grid = [(ip, rp) for lab, ip, rp in out["shares"] if lab == "meshData"]
             other = [(ip, rp) for lab, ip, rp in out["shares"] if lab != "meshData"]
             nm = f"{type(mc.m).__name__}.cellvolume" if is_vol else call.name
